@@ -24,9 +24,10 @@ BlocksOk(r, i, start, kept) ==
              k2 == EvictL(kept, L, r.slices * r.slice)
              lo == start - SumSeq(k2, 1)
              b == r.blocks[i]
-         IN /\ (IF b.skip THEN b.seqs = <<>> ELSE M!SeqsOk(r.data, b.seqs, 1, start, lo, start + L, r.ws))
+         IN /\ (IF b.skip THEN b.seqs = <<>> ELSE M!SeqsOk(r.data, b.seqs, 1, start, lo, start + L, r.ws, r.minmatch))
             /\ BlocksOk(r, i + 1, start + L, Append(k2, L))
-Ok(r) == r.ws = r.slices * r.slice /\ BlocksOk(r, 1, 0, <<>>)
+\* built-in finder: the advertised window is slices * slice; a user matcher (C16) advertises what it likes
+Ok(r) == (r.builtin => r.ws = r.slices * r.slice) /\ BlocksOk(r, 1, 0, <<>>)
 
 VARIABLE x
 Init == x = 0
